@@ -81,3 +81,15 @@ def c20_corpus(outdir, rc_exe, env):
     subprocess.run([rc_exe], env=e, stdout=subprocess.DEVNULL, stderr=subprocess.DEVNULL, timeout=600)
     shutil.rmtree(e['VF_OUT'], ignore_errors=True)
     return outdir
+
+
+def c04_corpus(outdir, rc_exe, env):
+    """golden frames as they are (no control words: the whole input must be a frame sequence for strict R)"""
+    os.makedirs(outdir, exist_ok=True)
+    n = 0
+    for d in ('golden-decompression',):
+        for f in sorted(glob.glob(os.path.join(build.REPO, 'tests', d, '*'))):
+            b = open(f, 'rb').read()
+            if len(b) <= 20000:
+                open(os.path.join(outdir, 'golden-%d' % n), 'wb').write(b); n += 1
+    return outdir
